@@ -31,8 +31,10 @@ def _race(ctx):
     rc, out = common.sh([common.BIN + "/qh_race", "logger", "--seed", str(ctx.seed), "--n", "1", "--lines", "2000", "--out", d], timeout=1800)
     ctx.coverage["race_detector_run"] = {"exit": rc, "tail": out[-300:]}
     if rc != 0 or "DATA RACE" in out:
-        common.report_violation(ctx, "C18 data race (or failure) while 16 goroutines log through one logger under -race: " + out[-600:],
-                                {"engine": "logger -race", "log": out[-4000:]})
+        i = out.find("WARNING: DATA RACE")
+        out = out[i:] if i >= 0 else out[-4000:]
+        common.report_violation(ctx, "C18 data race (or failure) while 16 goroutines log through one logger under -race: " + " ".join(out[:700].split()),
+                                {"engine": "logger -race", "log": out[:6000]})
 
 
 def run(ctx):
@@ -50,9 +52,11 @@ def run(ctx):
                                               "extra%d" % k, timeout=1500))
         _race(ctx)
     bad = generic.proof_cov(ctx, extra_trusted=TRUSTED)
-    generic.judge(ctx, results, bad, "logger",
+    concrete, tie = generic.judge(ctx, results, bad, "logger",
                   widen=lambda: (generic.engine_run(ctx, "logger", ["--seed", str(ctx.seed * 7919 + k), "--n", "12", "--goroutines", "32", "--lines", "30000"],
                                                     "search%d" % k, timeout=1500) for k in range(1, 4)))
+    if (bad or tie) and not concrete and not ctx.thorough:
+        _race(ctx)  # a broken tie without a failing input: look for a data race before giving up
     generic.fill_coverage(ctx, results, RULE)
     ok = [r for r in results if not r.get("failed")]
     ctx.coverage["concurrent_lines_judged"] = sum(r["stats"].get("concurrent_lines_judged", 0) for r in ok)
